@@ -76,6 +76,13 @@ def main():
             die("the open of the %s sink has an unrecognised shape (expected one match of /%s/)" % (name, rx))
         found.append((ms[0].start(), name))
     sink_opens = [(name, "File::create") for _p, name in sorted(found)]
+    # every sink is opened before the first printer call (a File::create behind a report would leave that report on its
+    # sink when the create fails: c20_sinks_opened_before_first_report_byte is proved for the model's order)
+    printers = [mm.start() for mm in re.finditer(r"\bprint_minidump_dump\(|\bstate\.print(?:_brief|_json)?\(", body)]
+    if len(printers) != 5:
+        die("expected five printer calls in main_result (print_minidump_dump, print_brief, print, print_json twice), found %d" % len(printers))
+    if max(pos for pos, _n in found) > min(printers):
+        die("a sink is opened after a printer call: the model opens the log file, the cyborg file and the output file before any report byte")
     if count("log_file", body) != 2 or ".with_writer(log_file)" not in nb:
         die("log_file is used in an unrecognised way")
     if "ifletSome(mutcyborg_output_f)=cyborg_output_f{state.print_json(&mutcyborg_output_f,cli.pretty)?;}else{state.print_json(&mutoutput,cli.pretty)?;}" not in nb:
